@@ -52,7 +52,7 @@ VARIABLES
 
 vars == <<events, sorted, collected, reg, hcfg, queue, seen, pc, pend, updLog, sent, n, nreg>>
 
-Event(t, id, lvl, prev, src, pub) == [topic |-> t, id |-> id, lvl |-> lvl, prev |-> prev, src |-> src, pub |-> pub]
+Event(t, id, lvl, prev, src, pub) == [topic |-> t, id |-> id, lvl |-> lvl, prev |-> prev, src |-> src, pub |-> pub, cnt |-> 0]
 
 (* The list the code keeps: IDs present, by level descending then ID ascending. *)
 Before(ev, a, b) == \/ ev[a] > ev[b]
@@ -76,14 +76,15 @@ St == [ev : events, so : sorted, co : collected, qu : queue, ul : updLog, se : s
 (* overwrites it when the topic has a record of the ID ("if ok"), so an event  *)
 (* republished by a publish handler to a topic that has never seen the ID keeps *)
 (* the previous level it had on the source topic.  Top-level collects carry OK. *)
-DoUpdate(s, t, id, lvl, src, pub, carried) ==
+DoUpdateC(s, t, id, lvl, src, pub, carried, cnt) ==
     LET prev == IF s.ev[t][id] = Absent THEN carried ELSE s.ev[t][id]
         ev2  == [s.ev EXCEPT ![t][id] = lvl]
-        e    == Event(t, id, lvl, prev, src, pub)
+        e    == [Event(t, id, lvl, prev, src, pub) EXCEPT !.cnt = cnt]
     IN  [s EXCEPT !.ev = ev2,
                   !.so = [s.so EXCEPT ![t] = SortIds(ev2[t])],
                   !.co = [s.co EXCEPT ![t] = @ + 1],
                   !.ul = [s.ul EXCEPT ![t] = Append(@, e)]]
+DoUpdate(s, t, id, lvl, src, pub, carried) == DoUpdateC(s, t, id, lvl, src, pub, carried, 0)
 DoEnqueue(s, e) ==
     [s EXCEPT !.qu = [h \in Handlers |-> IF h \in reg[e.topic] THEN Append(s.qu[h], e) ELSE s.qu[h]],
               !.se = [h \in Handlers |-> IF h \in reg[e.topic] THEN Append(s.se[h], e) ELSE s.se[h]]]
@@ -146,12 +147,27 @@ HandlerStep(h) ==
            c  == hcfg[h]
            s0 == [Cur EXCEPT !.qu = [queue EXCEPT ![h] = Tail(@)]]
        IN  IF ~Matches(c.match, e) THEN Install(s0) /\ UNCHANGED seen
-           ELSE IF c.kind = "rec" THEN Install(s0) /\ seen' = [seen EXCEPT ![h] = Append(@, e)]
+           ELSE IF c.kind \in {"rec", "agg"} THEN Install(s0) /\ seen' = [seen EXCEPT ![h] = Append(@, e)]   \* agg: seen is its buffer
            ELSE Install(PublishTo(s0, c.targets, e, h)) /\ UNCHANGED seen
     /\ UNCHANGED <<reg, hcfg, pc, pend, n, nreg>>
 
+(* aggregateHandler.run on a ticker: the events buffered since the last tick become ONE summary  *)
+(* event on the target topic: id AggId, level = the highest buffered level, cnt = how many.     *)
+(* (seen[h] is the buffer of an aggregate handler.)  An empty buffer ticks silently.             *)
+AggId == "agg"
+MaxLvl(evs) == Max({ evs[i].lvl : i \in DOMAIN evs })
+AggTick(h) ==
+    /\ hcfg[h].kind = "agg" /\ seen[h] # <<>>
+    /\ LET t  == hcfg[h].targets[1]
+           s1 == DoUpdateC(Cur, t, AggId, MaxLvl(seen[h]), seen[h][Len(seen[h])].src, h, 0, Len(seen[h]))
+           s2 == DoEnqueue(s1, LastUpd(s1, t))
+       IN  Install(s2)
+    /\ seen' = [seen EXCEPT ![h] = <<>>]
+    /\ UNCHANGED <<reg, hcfg, pc, pend, n, nreg>>
+
 ValidCfg(c) ==
-    /\ c.topic \in TopicIds /\ c.kind \in {"rec", "publish"} /\ c.match \in MatchKinds
+    /\ c.topic \in TopicIds /\ c.kind \in {"rec", "publish", "agg"} /\ c.match \in MatchKinds
+    /\ (c.kind = "agg" => Len(c.targets) = 1)
     /\ \A i \in DOMAIN c.targets : c.targets[i] \in TopicIds /\ TRank(c.targets[i]) > TRank(c.topic)
     /\ c.kind = "rec" => c.targets = <<>>
 
@@ -180,13 +196,14 @@ Replace(h, c) ==
     /\ UNCHANGED <<events, sorted, collected, reg, queue, pc, pend, updLog, n>>
 
 CfgSpace ==
-    { c \in [topic : TopicIds, kind : {"rec", "publish"}, match : {"none", "changed", "warn"},
+    { c \in [topic : TopicIds, kind : {"rec", "publish"} \cup (IF AggId \in EventIds THEN {"agg"} ELSE {}), match : {"none", "changed", "warn"},
              targets : {<<>>} \cup { <<t>> : t \in TopicIds }] : ValidCfg(c) /\ (c.kind = "publish" => c.targets # <<>>) }
 
 Next ==
     \/ \E p \in Publishers, t \in TopicIds, id \in EventIds, lvl \in Levels : Update(p, t, id, lvl)
     \/ \E p \in Publishers : Enqueue(p)
     \/ \E h \in Handlers : HandlerStep(h)
+    \/ \E h \in Handlers : AggTick(h)
     \/ \E h \in Handlers, c \in CfgSpace : Register(h, c)
     \/ \E h \in Handlers : Deregister(h)
     \/ \E h \in Handlers, c \in CfgSpace : Replace(h, c)
@@ -244,6 +261,12 @@ HandlerOrderEqualsUpdateOrder ==
             LET ui == CHOOSE k \in DOMAIN updLog[sent[h][i].topic] : updLog[sent[h][i].topic][k] = sent[h][i]
                 uj == CHOOSE k \in DOMAIN updLog[sent[h][j].topic] : updLog[sent[h][j].topic][k] = sent[h][j]
             IN ui < uj
+
+(* aggregation conserves events: every summary on a topic counts at least one event and never    *)
+(* reports a level that none of its events had (the level is one that occurred before it)         *)
+AggSummariesSound ==
+    \A t \in TopicIds : \A i \in DOMAIN updLog[t] :
+        updLog[t][i].cnt > 0 => updLog[t][i].id = AggId /\ updLog[t][i].pub \in Handlers
 
 TypeOK ==
     /\ \A t \in TopicIds : \A id \in EventIds : events[t][id] \in Levels \cup {Absent}
